@@ -30,3 +30,33 @@ CHECKS['C18'] = dict(
              plan={'quick': 'rcp=2000000,rcp_run=4000,noop_decode=200000', 'thorough': 'rcp=20000000,rcp_run=40000,noop_decode=2000000,rcp_exhaustive=1'}),
     ],
 )
+
+CHECKS['C11'] = dict(
+    level='exploration',
+    rule='generated (message, outlen 1..64, key 0..64 bytes) with lengths biased to block boundaries (0,1,127,128,129,255..257,4095..4097 and uniform <=520); '
+         'streaming cases add generated cut points incl. empty chunks and cuts at 127/128/129; counter cases inject a 128-bit byte counter shortly before '
+         '2^64 / 2^32 on both sides so the carry into t[1] is exercised; invalid-parameter tuples (8 kinds); (input, hash32) pairs for the commitment; '
+         'thorough: one > 4 GiB stream. Oracle: independent RFC 7693 model (anchored to the RFC vector and 2000 hashlib cases). '
+         'Non-trivial: multi-block message, keyed, or odd outlen (oneshot); >1 chunk and >128 bytes (stream); counter carry (counter); every invalid tuple; every commitment',
+    assumptions=COMMON_ASSUME + ['model/ref_blake2b.cpp is a correct reading of RFC 7693 (self-tested against the RFC vector and CPython hashlib at setup)'],
+    stages=[
+        dict(name='blake', harness=H('c11', ['harness/c11_blake2b.cpp'], model=True),
+             plan={'quick': 'oneshot=120000,stream=120000,counter=40000,invalid=40000,commitment=40000',
+                   'thorough': 'oneshot=3000000,stream=3000000,counter=1000000,invalid=400000,commitment=1000000,bigstream=16'}),
+    ],
+)
+
+CHECKS['C12'] = dict(
+    level='exploration',
+    rule='all 2x4x256 T-table entries enumerated against SubBytes+MixColumns of the model; generated 16-byte (state,key) pairs (uniform, constant, and '
+         'single-byte states that isolate one table entry and byte route) through soft_aesenc/dec, the AES-NI path and the aesenc<>/aesdec<> switch vs the '
+         'FIPS-197 model; generated 64-byte seeds x sizes 64*{0,1,2,3,4,63,64,65,127..129, uniform<200} (thorough: 4096, 32767, 32768 blocks) through '
+         'fillAes1Rx4, fillAes4Rx4, hashAes1Rx4, hashAndFillAes1Rx4 in both template instantiations vs the model of specs.md ch.3, incl. sizes below the '
+         '4 KiB prefetch distance, final generator state and a canary behind the buffer. Non-trivial: every distinct generated (state,key) / (seed,size,buffer)',
+    assumptions=COMMON_ASSUME + ['model/ref_aes.cpp is a correct reading of FIPS-197 and specs.md ch.3 (self-tested against FIPS-197 App.B, the CPU AESENC/AESDEC instructions and the Blake2b derivation of the printed keys)'],
+    stages=[
+        dict(name='aes', harness=H('c12', ['harness/c12_aes.cpp'], model=True),
+             plan={'quick': 'tables=1,round=400000,gen=12000,hash=12000,gen_big=32,hash_big=32',
+                   'thorough': 'tables=1,round=20000000,gen=400000,hash=400000,gen_big=2000,hash_big=2000'}),
+    ],
+)
